@@ -229,9 +229,8 @@ class Ctx(object):
             cfgp = os.path.join(SPEC, cfg)
         e = dict(os.environ)
         e.update({k: str(v) for k, v in (env or {}).items()})
-        cmd = ['java', '-XX:+UseParallelGC', '-Xss64m']
-        if java_opts:
-            cmd += list(java_opts)
+        cmd = ['java', '-Xss64m']
+        cmd += list(java_opts) if java_opts else ['-XX:+UseParallelGC']
         cmd += ['-cp', TLA_JAR + ':' + CM_JAR, 'tlc2.TLC',
                 '-workers', str(workers or 1),
                 '-metadir', os.path.join(run, 'meta'), '-noGenerateSpecTE',
@@ -293,7 +292,7 @@ class Ctx(object):
             vout = os.path.join(self.scratch, 'shard_%s_%d.json' % (module, k))
             ee = dict(env or {})
             ee.update({'SHARD': k, 'NSHARD': nshards, 'VOUT': vout})
-            kw.setdefault('java_opts', ['-XX:ParallelGCThreads=2', '-Xmx2g', '-XX:CICompilerCount=2'])
+            kw.setdefault('java_opts', ['-XX:+UseSerialGC', '-Xmx2g', '-XX:CICompilerCount=2'])
             r = self.tlc(module, cfg, env=ee, workers=1, count=False, **kw)
             if not os.path.exists(vout):
                 raise MachineryError('shard %d of %s wrote no output:\n%s'
